@@ -614,6 +614,17 @@ pub fn env_closed(env: &SEnv) -> bool {
 /// (`down = true`) or a supertype (`down = false`) of it. Whether it really is one
 /// is decided by the real checker, which gates every deployment.
 pub fn upgrade_step(rng: &mut Rng, env: &SEnv, t: &SType, down: bool, prims: &[Prim]) -> (SType, &'static str) {
+    // draw (position, rule) until a rule applies at the position
+    for _ in 0..12 {
+        let (t2, kind) = upgrade_step_once(rng, env, t, down, prims);
+        if kind != "none" {
+            return (t2, kind);
+        }
+    }
+    (t.clone(), "none")
+}
+
+fn upgrade_step_once(rng: &mut Rng, env: &SEnv, t: &SType, down: bool, prims: &[Prim]) -> (SType, &'static str) {
     let n = t.nodes();
     let mut k = rng.usize(n);
     let choice = rng.below(10);
